@@ -34,6 +34,10 @@ func main() {
 		runCopies()
 	case "ble":
 		runBle()
+	case "blehandler":
+		runBleHandler()
+	case "ioreplay":
+		runIoReplay()
 	default:
 		fmt.Fprintf(os.Stderr, "unknown subcommand %q\n", os.Args[1])
 		os.Exit(2)
